@@ -2636,3 +2636,39 @@ def r_first_latch(rep, hc):
     if not m.violations:
         rep.ok("R-FIRST-LATCH", key, "flag(s) %s: raised only on paths that record a sample in the same call" % ", ".join(sorted(flags)))
     return len(flags)
+
+
+def r_prev_stable(rep, hc):
+    """the detection loop compares every event function's value at the start of the step (`prev_event[i]`) with its value
+    at the end.  While that loop runs nothing may write `prev_event`: the stored values of the functions not yet examined must
+    survive the root refinement of the ones examined before them (a refinement that evaluates `events(t, y, &mut prev_event)`
+    into it as scratch space makes a later function's sign change invisible).  Rule: every write to prev_event - as the output
+    argument of a call, through copy/fill, or element-wise - lies outside every loop whose body reads prev_event."""
+    body = hc.body["body"]
+    is_prev = lambda e: tast.contains(e, lambda q: hc.field_is(q, "prev_event"))
+    loops = [lp for lp in tast.find(body, lambda z: z.get("k") in ("For", "While", "Loop"))
+             if tast.contains(lp.get("body") or lp, lambda z: z.get("k") == "Index" and is_prev(z["e"]))]
+    key = "R-PREV-STABLE:%s" % hc.fn
+    if not loops:
+        rep.inconc("R-PREV-STABLE", key, "no loop reading prev_event[..] found in the handler")
+        return
+    bad = None
+    n_w = 0
+
+    def writes_in(region):
+        out = []
+        out += tast.find(region, lambda z: z.get("k") in ("Call", "MethodCall") and any(a.get("k") == "AddrOf" and a.get("mut") and is_prev(a) for a in z.get("args", [])))
+        out += tast.find(region, lambda z: z.get("k") == "MethodCall" and z.get("name") in ("copy_from_slice", "clone_from_slice", "fill", "swap", "clone_from") and is_prev(z["recv"]))
+        out += tast.find(region, lambda z: z.get("k") in ("Assign", "AssignOp") and is_prev(z["l"]))
+        return out
+    n_w = len(writes_in(body))
+    for lp in loops:
+        for w in writes_in(lp.get("body") or lp):
+            bad = bad or w
+    if bad is not None:
+        rep.violation("R-PREV-STABLE", key, "`%s` writes prev_event inside the loop that reads the stored start-of-step values: the functions examined later are compared with "
+                      "overwritten values and their sign changes go unreported" % tast.render(bad)[:70], bad.get("sp"))
+    elif n_w == 0:
+        rep.inconc("R-PREV-STABLE", key, "no write to prev_event found in the handler (expected the end-of-step copy)")
+    else:
+        rep.ok("R-PREV-STABLE", key, "%d write(s) to prev_event, none inside the %d loop(s) that read it" % (n_w, len(loops)))
